@@ -223,5 +223,10 @@ func (state *RuntimeState) getStorageDataFromStorageStringDataJWT(serializedToke
 		err = errors.New("invalid JWT values")
 		return rvalue, err
 	}
+	// The expiration column of the DB is not signed, this one is
+	if inboundJWT.Expiration < time.Now().Unix() {
+		err = errors.New("expired storage JWT")
+		return rvalue, err
+	}
 	return inboundJWT, nil
 }
